@@ -15,7 +15,7 @@ import tempfile
 sys.path.insert(0, os.path.dirname(os.path.dirname(os.path.abspath(__file__))))
 from bounded import common  # noqa: E402
 
-NAMES = ["Data", "DATA", "Table 2", "sheet 2", "Übersicht"]
+NAMES = ["Data", "DATA", "Table 2", "sheet 2", "Straße"]  # the last: non-ASCII, and its case-folded form differs from its lower-cased one
 
 
 def ops_alphabet():
